@@ -918,6 +918,24 @@ impl G {
             .iter()
             .copied()
             .collect();
+        if max <= 4 && self.rng.chance(1, 2) {
+            // the ids run out, the server closes one channel, that very id is re-opened by
+            // name - and then asked for automatically again, twice
+            for _ in 0..max {
+                self.open_channel(None);
+            }
+            let victim = self.rng.range(1, max as u64) as u16;
+            self.feed(vec![FR::Method(victim, SM::ChanClose(404, "gone".into()))], Term::Block);
+            self.recv_some();
+            self.open_channel(Some(victim));
+            self.open_channel(None);
+            self.open_channel(None);
+            if let Some(ch) = self.some_open() {
+                self.client_send(ch);
+                self.w.event_chan(ch);
+            }
+            return;
+        }
         let k = self.rng.range(1, 4);
         for _ in 0..k {
             let id = *self.rng.pick(&cands);
